@@ -184,12 +184,18 @@ def AVal.unwrap : AVal → AVal
   | .absent v => v
   | v => v
 
-/-- `bigInt` is a pointer: a present big integer is never the zero value -/
-def isZeroAt (t : ATy) (v : AVal) : Bool :=
-  match t, v with
+mutual
+/-- `reflect.DeepEqual(v, zero)` directed by the target type: a `*big.Int` that was present on the wire is a
+non-nil pointer and never equals the zero value, at any depth -/
+def isZeroAt : ATy → AVal → Bool
   | _, .absent _ => true
   | .bigInt, _ => false
+  | .struct _ fs, .struct raw vs => (raw.getD []).isEmpty && allZeroAt fs vs
   | _, v => isZero v
+def allZeroAt : AFields → List AVal → Bool
+  | .cons _ t rest, v :: vs => isZeroAt t v && allZeroAt rest vs
+  | _, _ => true
+end
 
 /-- `v.Kind() == reflect.Slice && v.Len() == 0` -/
 def emptySlice : AVal → Bool
